@@ -133,6 +133,15 @@ package turbotunnel
 //@   ensures {fails-after-close} old(closed(c.closed)) ==> err != nil && calls(SendQueue) == 0
 //@   ensures {error-only-when-closed} err != nil ==> closed(c.closed)
 //
+// Close is closeWithError(nil): closed afterwards, the first call succeeds, later ones report an error.
+//@ func (c *QueuePacketConn) Close() (r error)
+//@   props C17
+//@   flag nosafety
+//@   requires c != nil
+//@   assumes c.closed != nil && (oncedone(&c.closeOnce) <==> closed(c.closed))
+//@   ensures {closed-afterwards} closed(c.closed)
+//@   ensures {only-the-first-close-succeeds} (r == nil) <==> !old(closed(c.closed))
+//
 //@ func (c *QueuePacketConn) closeWithError(err error) (r error)
 //@   props C17
 //@   flag nosafety
@@ -195,6 +204,14 @@ package turbotunnel
 //@   at call send assert {enqueues-a-private-copy} ch == c.sendQueue && fresh(value) && len(value) == len(p) && (forall k int :: 0 <= k && k < len(p) ==> value[k] == p[k])
 //@   ensures {fails-after-close} old(closed(c.closed)) ==> err != nil && sends(c.sendQueue) == old(sends(c.sendQueue))
 //@   ensures {error-only-after-close-or-dial-failure} err != nil ==> closed(c.closed)
+//
+//@ func (c *RedialPacketConn) Close() (r error)
+//@   props C17
+//@   flag nosafety
+//@   requires c != nil
+//@   assumes c.closed != nil && (oncedone(&c.closeOnce) <==> closed(c.closed))
+//@   ensures {closed-afterwards} closed(c.closed)
+//@   ensures {only-the-first-close-succeeds} (r == nil) <==> !old(closed(c.closed))
 //
 //@ func (c *RedialPacketConn) closeWithError(err error) (r error)
 //@   props C17
